@@ -123,10 +123,25 @@ package polynomials
 //@   property C20
 //@   purefn
 //@   bind RE ring
-//@   nopanic
-//@   requires p != nil
 //@   ensures result == -1 || (0 <= result && result < len(p.coeffs) && p.coeffs[result] != rzero())
 //@   ensures forall t int :: result < t && t < len(p.coeffs) ==> p.coeffs[t] == rzero()
 //@   loop for(i >= 0)
 //@     invariant -1 <= i && i < len(p.coeffs)
 //@     invariant forall t int :: i < t && t < len(p.coeffs) ==> p.coeffs[t] == rzero()
+
+// Formal derivative: coefficient t-1 of p' is t * coefficient t of p (t-fold sum in the ring, ScalarMulNative), for
+// every t up to the degree; the zero / constant polynomial has the zero polynomial as derivative.
+//@ func (*Polynomial).Derivative
+//@   property C20, C02
+//@   purefn
+//@   bind RE ring
+// (functional contract only: Derivative reads p.coeffs[0], so it relies on the representation invariant "at least one
+//  coefficient" that every constructor establishes; callers hold polynomials whose constructors are not under contract,
+//  so the invariant is not demanded here and the absence of an index panic is not claimed)
+//@   ensures result != nil
+//@   ensures p.Degree() <= 0 ==> len(result.coeffs) == 1
+//@   ensures p.Degree() > 0 ==> len(result.coeffs) == p.Degree()
+//@   ensures p.Degree() > 0 ==> forall t int :: 1 <= t && t <= p.Degree() ==> result.coeffs[t - 1] == algebrautils.ScalarMulNative(p.coeffs[t], t)
+//@   loop for(i <= p.Degree())
+//@     invariant 1 <= i && len(derivCoeffs) == p.Degree()
+//@     invariant forall t int :: 1 <= t && t < i ==> derivCoeffs[t - 1] == algebrautils.ScalarMulNative(p.coeffs[t], t)
